@@ -90,6 +90,7 @@ type Frame struct {
 	counts   map[string]int // obligation ordinals per kind
 	closures map[types.Object]*ast.FuncLit
 	closureSig *types.Signature
+	iterStarts map[int]*State
 }
 
 type Exec struct {
